@@ -100,6 +100,42 @@ func genSideCfg(rt *rapid.T, label string, o vfGenOpts) vfSideCfg {
 	return c
 }
 
+// vfOptMix: options that must not change what a puppet-driven sub-check judges (congestion
+// and RACK tuning, zero-checksum acceptance): drawn for the real endpoint of those sub-checks
+// so that an option leaking into an unrelated mechanism shows up.
+type vfOptMix struct {
+	RackWnd    int  `json:"rackwnd,omitempty"`
+	RackFloor  int  `json:"rackfloor,omitempty"`
+	RackDelAck int  `json:"rackdelack,omitempty"`
+	MinCwnd    int  `json:"mincwnd,omitempty"`
+	FastRtx    int  `json:"fastrtx,omitempty"`
+	CAStep     int  `json:"castep,omitempty"`
+	ZC         bool `json:"zc,omitempty"`
+}
+
+func genOptMix(rt *rapid.T, label string) vfOptMix {
+	var m vfOptMix
+	if rapid.Bool().Draw(rt, label+"_mix") {
+		return m
+	}
+	m.RackWnd = rapid.SampledFrom([]int{0, 100, 5000}).Draw(rt, label+"_rackwnd")
+	m.RackFloor = rapid.SampledFrom([]int{0, 1, 40, 300}).Draw(rt, label+"_rackfloor")
+	m.RackDelAck = rapid.SampledFrom([]int{0, 20, 500, 4000}).Draw(rt, label+"_rackdelack")
+	m.MinCwnd = rapid.SampledFrom([]int{0, 0, 1000, 20000}).Draw(rt, label+"_mincwnd")
+	m.FastRtx = rapid.SampledFrom([]int{0, 0, 2000}).Draw(rt, label+"_fastrtx")
+	m.CAStep = rapid.SampledFrom([]int{0, 0, 3000}).Draw(rt, label+"_castep")
+	m.ZC = rapid.IntRange(0, 3).Draw(rt, label+"_zc") == 0
+	return m
+}
+
+func (m vfOptMix) apply(c *vfSideCfg) {
+	c.RackMinRTTWndMs, c.RackReoFloorMs, c.RackWCDelAckMs = m.RackWnd, m.RackFloor, m.RackDelAck
+	c.MinCwnd, c.FastRtxWnd, c.CACwndStep = m.MinCwnd, m.FastRtx, m.CAStep
+	if m.ZC {
+		c.ZC = true
+	}
+}
+
 // genPosFaults: positional per-packet decisions for the first k packets of one side.
 // The first `protect` packets are faulted with lower probability (handshake).
 func genPosFaults(rt *rapid.T, label string, k int, protect int, intensity int) []vfFD {
